@@ -26,17 +26,17 @@ var All = []Prop{
 	{"C06", []string{"MERGE", "RANK"},
 		"_or selects the union and _and the intersection of the sub-results; a merged result is appended only when its node id was not seen, otherwise its hybrid score is added to the entry held; in a conjunction results outside the intersection are never appended; every return of merged ranked results (beyond the single sub-query shortcut) comes after a sort by hybrid score, highest first; the page is results[min(offset,len):min(offset+limit,len)]; the sort-key comparator puts points lacking the key last and swaps operands per key when that key is descending; hybrid score signs of the three ranking indexes",
 		"the values of the scores, stability of ties, selected field contents and nested-path rebuilding", 12},
-	{"C04", []string{"KEYS", "ENUM", "RANK"},
-		"the flat scan stores a result only where no filter was given or the point is in it, grows its buffer only while len < cap with cap = limit, and scores minus weight times distance; every item a vector store writes is enumerable (IdFromKey), readable (ReadFrom) and fully removable (DeleteFrom) from a cold cache; every distance metric validation accepts is routed to a registered function",
+	{"C04", []string{"KEYS", "ENUM", "RANK", "BORROW"},
+		"nothing a vector store or an index keeps (cached items, quantiser parameters) shares memory with the byte slices a storage bucket handed out: every retained slice passes through a copy; the flat scan stores a result only where no filter was given or the point is in it, grows its buffer only while len < cap with cap = limit, and scores minus weight times distance; every item a vector store writes is enumerable (IdFromKey), readable (ReadFrom) and fully removable (DeleteFrom) from a cold cache; every distance metric validation accepts is routed to a registered function",
 		"k-nearest-neighbour exactness and reported distance values", 12},
 	{"C07", []string{"TXSTATE", "SCRAP", "ERRS", "JOIN", "LOCKPAIR", "FLUSH"},
 		"a failed storage transaction always reaches Commit(true) and a successful one Commit(false); the cache manager scraps and unregisters every cache touched by a failed transaction; no error of a storage-layer call is dropped on the write path and the callback's error reaches bbolt's rollback; every pipeline stage's error channel is consumed and every write callback waits for the merged channel",
 		"crash atomicity of bbolt itself; equality of answers before and after a failed batch; (known finding) the fan-in helpers can complete before their inputs", 150},
-	{"C08", []string{"FLUSH", "DIRTY", "KEYS", "GUARD", "ITEMFLAGS", "SCAN"},
-		"the item cache's dirty/deleted flag protocol (Put makes live and dirty, readers skip deleted, Flush obeys the flags); both storage backends implement the same scan semantics; every flushing method flushes all caches of its receiver and persists every parameter the constructor reads; every write driver's success exits are the flush result; every mutation of a persisted field of a flagged Storable sets its dirty flag; Storable key tables agree",
+	{"C08", []string{"FLUSH", "DIRTY", "KEYS", "GUARD", "ITEMFLAGS", "SCAN", "BORROW"},
+		"no cached or returned value aliases bucket memory that is only valid during the storage transaction; the item cache's dirty/deleted flag protocol (Put makes live and dirty, readers skip deleted, Flush obeys the flags); both storage backends implement the same scan semantics; every flushing method flushes all caches of its receiver and persists every parameter the constructor reads; every write driver's success exits are the flush result; every mutation of a persisted field of a flagged Storable sets its dirty flag; Storable key tables agree",
 		"equality of answers across cache states and storage backends; durability of bbolt", 50},
-	{"C09", []string{"ROEFFECT", "GUARD", "LOCKORDER", "LOCKPAIR", "JOIN", "SCRAP", "ATOMIC"},
-		"a lookup-then-update of a guarded registry map stays inside one critical section; no store into shared cached state is reachable from a read-only cache callback without a mutex of the stored-to object held; every access to the guarded maps and pointers holds the guarding lock; the lock-class order graph has no cycle outside the reasoned exceptions; every lock acquired is released on every exit",
+	{"C09", []string{"ROEFFECT", "GUARD", "LOCKORDER", "LOCKPAIR", "JOIN", "SCRAP", "ATOMIC", "BORROW"},
+		"the documents a search returns own their memory (they do not point into the storage engine's memory map, which later writes reuse and remap); a lookup-then-update of a guarded registry map stays inside one critical section; no store into shared cached state is reachable from a read-only cache callback without a mutex of the stored-to object held; every access to the guarded maps and pointers holds the guarding lock; the lock-class order graph has no cycle outside the reasoned exceptions; every lock acquired is released on every exit",
 		"that a search's results come from one committed version (snapshot / cache version skew); final-state equality with a sequential model", 120},
 	{"C10", []string{"PAIR", "KEYS", "FLUSH", "DEGREE", "ITEMFLAGS", "DOCFLOW"},
 		"every site that adds a graph edge is bounded by the degree bound (result check or a dominating guard with enough slack); a cached item deleted and re-put in one transaction stays live; graph node and stored vector are created and removed together for the same id; deleting an item removes every key a write may have created; the id allocator is persisted and its ids are paired with the points stored and deleted",
@@ -50,8 +50,8 @@ var All = []Prop{
 	{"C13", []string{"PURITY", "ROUTE"},
 		"a server's score depends on (key, that server) only; the ranking comparator depends on its operands only; every RPC destination is RendezvousHash over the node's full, immutable server list",
 		"64-bit score ties; statistical uniformity of the hash", 25},
-	{"C14", []string{"TRANSFER"},
-		"recursive removal on the sender is confined to the sent shard's own directory; the record receiver counts an entry as delivered only after its Put succeeded; the source copy (file or records) is removed only on paths behind a successful transfer, matching byte/record counts and equal checksums; the receiver reports the checksum of the file on disk and resets the destination on the first chunk; start-up runs RPC serving, synchronisation, HTTP in that order",
+	{"C14", []string{"TRANSFER", "BORROW"},
+		"the records collected for the other servers are copied out of the read transaction they were scanned in; recursive removal on the sender is confined to the sent shard's own directory; the record receiver counts an entry as delivered only after its Put succeeded; the source copy (file or records) is removed only on paths behind a successful transfer, matching byte/record counts and equal checksums; the receiver reports the checksum of the file on disk and resets the destination on the first chunk; start-up runs RPC serving, synchronisation, HTTP in that order",
 		"byte identity of transferred files; recovery after a kill at every chunk", 6},
 	{"C15", []string{"QUOTA"},
 		"every side effect of an insert request (shard creation, per-shard insert) is only reachable behind the point-quota test, and the collection record is only written behind the collection-quota test",
@@ -93,15 +93,15 @@ var Technique = map[string]string{
 	"C03": "edge dominance of the entry-node and limit tests over every result append, provenance and sign of the hybrid score product, gating of filtered-result-set adds by the filter",
 	"C05": "operator table by edge dominance, must-pass-through of the filter intersection, comparator direction, sort-before-cut ordering, alias analysis of mutated bitmaps, path-consistent walk of the per-document routine",
 	"C06": "edge dominance and must-pass-through in the merge (set algebra, de-duplication, conjunction gate, sort before every return), clamp/provenance shape of the page slice, partial evaluation of the sort-key comparator",
-	"C04": "writer/reader/enumerator key-table agreement per Storable (exhaustive path enumeration of loop-free methods), enum-switch exhaustiveness",
+	"C04": "writer/reader/enumerator key-table agreement per Storable (exhaustive path enumeration of loop-free methods), enum-switch exhaustiveness, whole-module alias (borrow) analysis from bucket reads to retained fields",
 	"C07": "typestate of cache transactions on the CFG, must-pass-through (scrap on failure), error-result use analysis over the VTA-reachable write path, goroutine join-chain analysis of select states",
-	"C08": "sibling completeness of flush methods, success-exit dominance, dirty-flag post-dominance, key tables, constant-key write/read pairing",
-	"C09": "read-only effect analysis over the VTA call graph with path-sensitive must-held locksets, guarded-by table, lock-order graph SCCs",
+	"C08": "sibling completeness of flush methods, success-exit dominance, dirty-flag post-dominance, key tables, constant-key write/read pairing, whole-module alias (borrow) analysis from bucket reads to retained fields",
+	"C09": "read-only effect analysis over the VTA call graph with path-sensitive must-held locksets, guarded-by table, lock-order graph SCCs, alias (borrow) analysis of search results against bucket memory",
 	"C10": "value-flow pairing of node and vector mutations, key tables (delete ⊇ write), flush completeness",
 	"C11": "path-sensitive lock-state exploration (acquire/release pairing incl. hand-over), lock-order graph, must-pass-through on failure edges, non-blocking reader path",
 	"C12": "lock-order graph SCCs, guarded-by table, nil-check typestate and dominance ordering of unregister-before-remove",
 	"C13": "backward provenance slice of the hash input and comparator, who-may-store on the server list, every Dest initialiser traced to RendezvousHash over the full list",
-	"C14": "edge dominance (delete only behind verify), provenance of the reported checksum, open-flag constant analysis on the first-chunk path, call order in main",
+	"C14": "edge dominance (delete only behind verify), provenance of the reported checksum, open-flag constant analysis on the first-chunk path, call order in main, alias (borrow) analysis of the records kept beyond the scan transaction",
 	"C15": "edge dominance of the quota tests over every side-effecting call",
 	"C16": "provenance of bucket keys, scan prefixes, directory paths and handler user ids",
 	"C17": "sibling cross-check of all RPC handlers (self-route constant, guard, arguments), range-operand and length-comparison provenance of fan-out loops",
@@ -121,6 +121,7 @@ type RuleFloor struct {
 
 var RuleFloors = map[string]RuleFloor{
 	"ASM":       {8, []string{"C20"}},
+	"BORROW":    {25, []string{"C04", "C08", "C09", "C14"}},
 	"ATOMIC":    {3, []string{"C09", "C11", "C12"}},
 	"BITPACK":   {3, []string{"C20"}},
 	"DEGREE":    {3, []string{"C10"}},
@@ -143,16 +144,16 @@ var RuleFloors = map[string]RuleFloor{
 	"LOCKPAIR":  {32, []string{"C09", "C11", "C12", "C07"}},
 	"OPTABLE":   {8, []string{"C02"}},
 	"PAIR":      {5, []string{"C10", "C01"}},
-	"PURITY":    {3, []string{"C13"}},
+	"PURITY":    {2, []string{"C13"}},
 	"QUOTA":     {3, []string{"C15"}},
 	"ROEFFECT":  {5, []string{"C09"}},
-	"ROUTE":     {35, []string{"C13", "C17"}},
+	"ROUTE":     {28, []string{"C13", "C17"}},
 	"SCAN":      {4, []string{"C02", "C08"}},
-	"SCRAP":     {13, []string{"C11", "C07", "C09"}},
+	"SCRAP":     {9, []string{"C11", "C07", "C09"}},
 	"SORTABLE":  {14, []string{"C19", "C02"}},
 	"SORTED":    {1, []string{"C17"}},
 	"TAGGED":    {30, []string{"C18"}},
-	"TENANT":    {22, []string{"C16"}},
+	"TENANT":    {18, []string{"C16"}},
 	"TRANSFER":  {8, []string{"C14"}},
 	"TXSTATE":   {12, []string{"C07", "C11"}},
 	"TYPETAB":   {9, []string{"C18"}},
